@@ -260,6 +260,13 @@ fn derivative_names(tape: &[u32], st: &mut Stats) -> CaseResult {
     if sorted.len() >= 2 && st.nontrivial(&format!("{text}|{idx}|{idx2}")) && st.want_sample() {
         st.sample(json!({"text": text, "wrt": [idx, idx2], "vars": sorted}));
     }
+    // a second expression over a random subset of the pool (possibly names the first does not use)
+    let other_names: Vec<String> = (0..1 + t.choose(3)).map(|_| names[t.choose(n)].clone()).collect();
+    let other_text: String = other_names.iter().map(|v| format!("{{{v}}}")).collect::<Vec<_>>().join([" + ", " * "][t.choose(2)]);
+    let other_text: &str = &other_text;
+    let union: Vec<String> = sorted.iter().cloned().chain(other_names.iter().cloned()).collect::<BTreeSet<String>>().into_iter().collect();
+    st.class_if(union.len() > sorted.len(), "operator application adds names to a derivative's list");
+    let combined: std::cell::RefCell<Vec<(&'static str, Vec<String>)>> = std::cell::RefCell::new(vec![]);
     let res = guard(|| -> Result<Vec<(&'static str, Vec<String>)>, String> {
         let f = ex_msg(exmex::FlatEx::<f64>::parse(text))?;
         let d = ex_msg(exmex::DeepEx::<f64>::parse(text))?;
@@ -279,9 +286,35 @@ fn derivative_names(tape: &[u32], st: &mut Stats) -> CaseResult {
         let vals: Vec<f64> = (0..sorted.len()).map(|i| 0.5 + i as f64 * 0.25).collect();
         ex_msg(f2.eval(&vals))?;
         ex_msg(d2.eval(&vals))?;
+        // operator application on a derivative (which often vanished but still carries its names)
+        let o = ex_msg(exmex::DeepEx::<f64>::parse(other_text))?;
+        let uvals: Vec<f64> = (0..union.len()).map(|i| 0.5 + i as f64 * 0.25).collect();
+        let combos: Vec<(&'static str, exmex::ExResult<exmex::DeepEx<f64>>)> = vec![
+            ("derivative + other", d2.clone() + o.clone()),
+            ("other + derivative", o.clone() + d2.clone()),
+            ("derivative - other", d2.clone() - o.clone()),
+            ("derivative * other", d2.clone() * o.clone()),
+            ("other * derivative", o.clone() * d2.clone()),
+            ("derivative / other", d2.clone() / o.clone()),
+            ("operate_binary(derivative, other, +)", d2.clone().operate_binary(o.clone(), "+")),
+            ("FlatEx: operate_binary(derivative, other, *)", Ok(d2.clone())),
+        ];
+        for (what, r) in combos {
+            let names = if what.starts_with("FlatEx") {
+                let fo = ex_msg(exmex::FlatEx::<f64>::parse(other_text))?;
+                let r = ex_msg(f2.clone().operate_binary(fo, "*"))?;
+                ex_msg(r.eval(&uvals))?;
+                r.var_names().to_vec()
+            } else {
+                let r = ex_msg(r)?;
+                ex_msg(r.eval(&uvals)).map_err(|e| format!("{what}: eval with {} values fails: {e}", uvals.len()))?;
+                r.var_names().to_vec()
+            };
+            combined.borrow_mut().push((what, names));
+        }
         Ok(out)
     });
-    let describe = || json!({"text": text, "wrt": [idx, idx2], "vars": sorted});
+    let describe = || json!({"text": text, "wrt": [idx, idx2], "vars": sorted, "other": other_text});
     match res {
         Err(p) => Err(fail("C04/derivative/panic", format!("panic differentiating `{text}`: {p}"), describe())),
         Ok(Err(e)) => Err(fail("C04/derivative/error", format!("differentiating `{text}` fails: {e}"), describe())),
@@ -291,6 +324,15 @@ fn derivative_names(tape: &[u32], st: &mut Stats) -> CaseResult {
                     return Err(fail(
                         &format!("C04/derivative/{what}/names"),
                         format!("{what} of `{text}`: var_names {got:?}, antiderivative has {sorted:?}"),
+                        describe(),
+                    ));
+                }
+            }
+            for (what, got) in combined.into_inner() {
+                if got != union {
+                    return Err(fail(
+                        &format!("C04/derivative/{what}/names"),
+                        format!("{what} (derivative of `{text}` along {:?}, other = `{other_text}`): var_names {got:?}, expected the sorted union {union:?}", [idx, idx2]),
                         describe(),
                     ));
                 }
@@ -321,7 +363,7 @@ pub fn def() -> PropDef {
             },
             SubCheck {
                 name: "derivative_names",
-                rule: "tape -> 1-20 names (incl. braced) x sum/product of simple terms (default float operators) x two indices; partial, partial.partial, partial_iter on FlatEx and DeepEx keep exactly the antiderivative's list and evaluate with the same slice; non-trivial = >=2 variables",
+                rule: "tape -> 1-20 names (incl. braced) x sum/product of simple terms (default float operators) x two indices; partial, partial.partial, partial_iter on FlatEx and DeepEx keep exactly the antiderivative's list and evaluate with the same slice; the (often vanished) second derivative combined with a second expression by + - * / and operate_binary lists the sorted union and evaluates with that many values; non-trivial = >=2 variables",
                 kind: Kind::Tape { len: 200, quick: 3_000, thorough: 200_000, f: derivative_names },
             },
         ],
